@@ -308,13 +308,19 @@ class C03(Check):
                 ok = any(os_base(f) == ffile and l1 <= int(ln) <= l2 + slack for f, ln, _ in locs)
                 if not ok:
                     bad("wrong-position", f"edited statement is at {ffile}:{l1}-{l2}; diagnostics point at {[(os_base(f), int(ln)) for f, ln, _ in locs][:4]}")
-        return {"outcome": "rejected" if not viol else "VIOL", "viol": viol, "nontrivial": True,
-                "tags": [f"host-{host}", "fault"]}
+        tags = [f"host-{host}", "fault"]
+        if not viol and not fault.startswith("unknown-name:") and re.search(r"^\s+= (expected |this is a reserved keyword)", text, re.M):
+            # rejected, but as a syntax error: the edit was meant to be well-formed and ill-typed, so the template is wrong
+            tags.append("syntax-instead-of-type:" + fault)
+        return {"outcome": "rejected" if not viol else "VIOL", "viol": viol, "nontrivial": True, "tags": tags}
 
     def finish(self, stats, tier):
         errs = []
         if stats["tags"].get("control-ok", 0) != len(HOSTS):
             errs.append("vacuity: not every host passed its positive control")
+        wrong = sorted(k.split(":", 1)[1] for k in stats["tags"] if k.startswith("syntax-instead-of-type:"))
+        if wrong:
+            errs.append(f"vacuity: type-breaking edits rejected as syntax errors (template problem): {wrong[:8]}")
         return errs
 
 
